@@ -742,3 +742,24 @@ addendum('C16', 'R14: collect_information on every path from the top of '
          'character set containing alphanumerics.')
 addendum('C03', 'R16 = C10.R1 (waits bounded by the time limit).')
 
+
+# ---- round 13 (DESIGN.md 8.4, "Round 13") and the rules of sa/defaultconsts.py
+addendum('C03', 'R17: ddSMT\'s own default constants are constants for its '
+         'own is_const() - the repository\'s get_default_constants and '
+         'predicates are folded on literal sorts (sa/defaultconsts.py, '
+         'sa/fold.py; only Node.__init__ / Node.__eq__ are modelled); R18: '
+         'BvMergeExtend.filter accepts a term only when outer and inner '
+         'extension coincide (truth table of the filter); R14 examines both '
+         'orders of a pair of self-calls.')
+addendum('C16', 'R16: the sort and bit-width get_sort / get_bv_width infer '
+         'for the default constants of sort S are S (same folding).')
+addendum('C04', 'R23: a value the function itself compares with None is '
+         'not used in arithmetic / ordering where that test does not '
+         'dominate (strategies, checker, cli, progress).')
+addendum('C08', 'R5 also fixes the codec of the open() that feeds the '
+         'reader (default or UTF-8, no error handler).')
+addendum('C10', 'R14 = the timeout part of C09.R2 (each command under its '
+         'own limit).')
+addendum('C14', 'R9 also reports an iteration of the loop over the passes '
+         'that leaves the loop without a sweep.')
+
